@@ -68,12 +68,30 @@ def cellName (x : String) : Nat :=
 def dropEndNulls (l : Lineage) : Lineage :=
   (l.reverse.dropWhile (fun p => p.2 == unassignedId)).reverse
 
-/-- `ident.split(" ")[0]`, then `.split(".")[0]` unless versions are kept -/
-def splitIdent (splitIdents keepVersions : Bool) (ident : String) : String :=
+/-- the characters before the LAST `c` (all of them when there is none): `s.rsplit(c, 1)[0]` on characters -/
+def beforeLast (c : Char) (l : List Char) : List Char :=
+  if l.contains c then (l.reverse.dropWhile (· != c)).drop 1 |>.reverse else l
+
+/-- the version cut of one site -/
+def cutVersion (cut : Gen.VersionCut) (s : String) : String :=
+  match cut with
+  | .dotPrefix => dotPrefix s
+  | .dropLast => String.ofList (beforeLast '.' s.toList)
+
+/-- an identifier normalisation: `ident.split(" ")[0]`, then the version cut unless versions are kept -/
+def normIdent (cut : Gen.VersionCut) (splitIdents keepVersions : Bool) (ident : String) : String :=
   if splitIdents then
     let i := firstWord ident
-    if keepVersions then i else dotPrefix i
+    if keepVersions then i else cutVersion cut i
   else ident
+
+/-- spreadsheet side: the identifier column in `load_taxonomy_assignments` -/
+def taxIdent (splitIdents keepVersions : Bool) (ident : String) : String :=
+  normIdent Gen.idxTaxVersionCut splitIdents keepVersions ident
+
+/-- signature side: `sig.name` (or `sig.filename`) in the main loop of `index` -/
+def sigIdent (splitIdents keepVersions : Bool) (ident : String) : String :=
+  normIdent Gen.idxSigVersionCut splitIdents keepVersions ident
 
 structure TaxAcc where
   asg : List (String × Lineage)
@@ -91,7 +109,7 @@ def taxRow (o : Opts) (acc : TaxAcc) (row : List String) : Except Stop TaxAcc :=
       match pairs with
       | [] => .ok acc
       | (_, identCell) :: rest =>
-        let ident := splitIdent o.splitIdents o.keepVersions identCell
+        let ident := taxIdent o.splitIdents o.keepVersions identCell
         let lineage : Lineage := dropEndNulls (rest.filterMap (fun p => match p.1 with
           | .rank i => some (i, cellName p.2)
           | _ => none))
@@ -138,7 +156,7 @@ def indexSig (o : Opts) (asg : List (String × Lineage)) (st : IdxSt) (sg : Sig)
   else if st.seenMd5.contains sg.md5 then .ok { st with dupNames := addSet st.dupNames sg.name }
   else
     let st := { st with seenMd5 := sg.md5 :: st.seenMd5 }
-    let ident := splitIdent o.splitIdents o.keepVersions (if sg.name ≠ "" then sg.name else sg.filename)
+    let ident := sigIdent o.splitIdents o.keepVersions (if sg.name ≠ "" then sg.name else sg.filename)
     match get? asg ident with
     | none =>
       if o.requireTax then (if o.failMissing then .error (.exit (-1)) else .ok st)
